@@ -3,7 +3,7 @@
 //! Case / observation format: see lean/LolHtml/Lane/Mem.lean.
 //!
 //! Independent oracle (not diffed, appended as ` ||ORACLE:C10:<site> …`):
-//!   * prealloc-left-charged   : `Arena::new` returned with usage > max (finding F5, repaired in /repo 6a70b0c:
+//!   * prealloc-left-charged   : `Arena::new` returned with usage > max (finding F5, repaired in /repo 6823fd9:
 //!                               must stay silent)
 //!   * usage-exceeds-max       : a call returned Ok, no call failed before, and accounted usage > max
 //!   * arena-content           : the arena bytes differ from a reference `Vec<u8>` replay
@@ -120,7 +120,7 @@ pub fn run(line: &str) -> String {
     };
     let mut oracle: Vec<String> = vec![];
 
-    // Arena::new cannot fail: a preallocation that does not fit is rolled back (capacity 0)
+    // Arena::new cannot fail: the preallocation is clamped to the limit (rolled back if unreservable)
     let mut arena = VerifArena::new(limiter.clone(), prealloc);
     let mut out = format!("isz={isz} init=ok:{}", limiter.verif_current_usage());
     if limiter.verif_current_usage() > max {
